@@ -6,7 +6,7 @@ and downstream: problem facts / fluents accepted exactly for conforming objects,
 type, forall effects touching exactly the objects below the quantified type."""
 import itertools
 
-from pv.harness import build_objects, lib_objects, read_lib_state
+from pv.harness import build_objects, build_state, lib_objects, read_lib_state
 from pv.lib import lib_call, parse_domain_text, parse_problem_text
 from pv.ref import pddl, sexpr
 from pv.runner import Res
@@ -206,13 +206,16 @@ def check_case(case):
         if set(got[0]) != exp:
             res.bad("C06/forall-effect/range", {**info, "quantified": t, "missing": sorted(exp - set(got[0])), "extra": sorted(set(got[0]) - exp)})
             break
+    # the double sweeps start from a state that already mentions every object at a root-typed position: what an
+    # object's type is follows from its declaration, not from the positions it fills in the state's facts
+    mentioned = frozenset(("isobj", o) for o in world.objects)
     for t in names:
         def run2():
             op = Operator(domain.actions[f"sweep2-{t}"], domain, [], objs)
-            return read_lib_state(op.apply(State(defaultdict(set), {}, is_init=True)))
+            return read_lib_state(op.apply(build_state(domain, world, (mentioned, {}))))
         oka, got = lib_call(run2)
         n_eval += 1
-        exp = {("mark", o) for o in world.of_type(t)} | {("mark2", o) for o in world.of_type(nxt(names, t))}
+        exp = {("mark", o) for o in world.of_type(t)} | {("mark2", o) for o in world.of_type(nxt(names, t))} | set(mentioned)
         if not oka:
             res.bad(f"C06/forall-effect-pair/exception:{got.key}", {**info, "quantified": [t, nxt(names, t)], "error": repr(got)})
             break
